@@ -767,6 +767,134 @@ func fsutilCompare(a, b string) int {
 
 var c03DestStrings = []string{"/w/dest", "/w/dest", "/w/dest", "w/dest", "/lnk", "lnk", "/w/dest/", "/out/../w/dest", "/w/./dest"}
 
+// c03Shadow adds, next to entries of the stream (most of which replace what the destination holds),
+// siblings whose names are derived from theirs the way programs derive names for temporaries
+// (".tmp.<name>", ".tmp.<digits>", "<name>.tmp", ".<name>.tmp.<x>", "<name>~"), as symlinks that leave
+// the destination (absolute and ..-relative).  Most of these sort before the entry they are named
+// after.  (".tmp.0" and ".tmp.<9 digits>" are the names the model / the snapshot reserve for the
+// writer's own temporaries and are not used.)
+func c03Shadow(r *Rng, kids *[]*c03N, depth int) bool {
+	done := false
+	for _, k := range *kids {
+		if k.typ == 1 && r.Chance(40) {
+			if c03Shadow(r, &k.kids, depth+1) {
+				done = true
+			}
+		}
+	}
+	if len(*kids) == 0 {
+		return done
+	}
+	for n := 1 + r.Intn(2); n > 0; n-- {
+		k := Pick(r, *kids)
+		name := ""
+		switch r.Intn(6) {
+		case 0, 1:
+			name = ".tmp." + k.name
+		case 2:
+			name = ".tmp." + Pick(r, []string{"1", "42", "12345", "99999999", "1000000000"})
+		case 3:
+			name = k.name + ".tmp"
+		case 4:
+			name = "." + k.name + ".tmp." + Pick(r, []string{"1", "x", "123456789"})
+		default:
+			name = k.name + "~"
+		}
+		dup := false
+		for _, q := range *kids {
+			if q.name == name {
+				dup = true
+			}
+		}
+		if dup {
+			continue
+		}
+		up := strings.Repeat("../", depth+2)
+		target := Pick(r, []string{"/out/f", "/out/d/g", "/secret", "/w/sib", "/out/new", up + "out/f", up + "secret", up + "w/sib", up + "out/d/g", up + "out/new2"})
+		*kids = append(*kids, &c03N{name: name, typ: 2, perm: 0777, target: target, uid: Pick(r, c03Ids), gid: Pick(r, c03Ids), mtime: c03Mtime(r)})
+		done = true
+	}
+	sort.Slice(*kids, func(i, j int) bool { return (*kids)[i].name < (*kids)[j].name })
+	return done
+}
+
+// c03DeepCase: a chain of directories nested past the growth steps of the validator's stack
+// (10, 21, 43 records), present in the destination with content below its end, and a stream that
+// walks the chain and then repeats / misorders a path at that depth - the repeated entry comes as a
+// symlink that leaves the destination.
+func c03DeepCase(r *Rng) (Sx, string, bool) {
+	depth := Pick(r, []int{9, 10, 11, 12, 13, 20, 21, 22, 23, 43, 44})
+	names := []string{"a", "b", "d"}
+	var chain []string
+	p := ""
+	for i := 0; i < depth; i++ {
+		p = c03Join(p, Pick(r, names))
+		chain = append(chain, p)
+	}
+	// destination: the chain, at its end a directory k with a child that an outside directory also has
+	type tgt struct{ child, abs, rel string }
+	t := Pick(r, []tgt{{"g", "/out/d", "out/d"}, {"f", "/out", "out"}, {"sib", "/w", "w"}, {"secret", "/", ""}})
+	s := &c03Setup{}
+	mk := func(q string) {
+		s.ops = append(s.ops, L(N(5), S(q), N(0755)))
+		s.mtime(q, int64(1e18)+7)
+	}
+	fl := func(q string, data string) {
+		s.file(q, 0644, []byte(data))
+		s.ops = append(s.ops, L(N(14), S(q), N(0644)))
+		s.mtime(q, int64(1e18)+11)
+	}
+	mk("/out")
+	fl("/out/f", "O:f")
+	mk("/out/d")
+	fl("/out/d/g", "O:g")
+	fl("/secret", "O:secret")
+	mk("/w")
+	fl("/w/sib", "O:sib")
+	mk(c03DestAbs)
+	for _, q := range chain {
+		mk(c03DestAbs + "/" + q)
+	}
+	k := chain[depth-1] + "/k"
+	mk(c03DestAbs + "/" + k)
+	fl(c03DestAbs+"/"+k+"/"+t.child, "D:c")
+	s.mtime("/", int64(1e18)+19)
+	setup := L(append(s.ops, s.times...)...)
+	dstat := func(q string) *types.Stat {
+		return &types.Stat{Path: q, Mode: uint32(os.ModeDir | 0755), ModTime: int64(1e18) + 7}
+	}
+	var pk []Sx
+	for _, q := range chain {
+		pk = append(pk, c03StatPk(dstat(q)))
+	}
+	target := t.abs
+	if r.Chance(50) {
+		target = strings.Repeat("../", depth+2) + t.rel
+	}
+	lstat := func(q string) Sx {
+		return c03StatPk(&types.Stat{Path: q, Mode: uint32(os.ModeSymlink | 0777), Linkname: target, ModTime: int64(1e18) + 99})
+	}
+	class := ""
+	switch r.Intn(5) {
+	case 0, 1: // the directory at the end, then the same path again as a symlink
+		pk = append(pk, c03StatPk(dstat(k)), lstat(k))
+		class = "dup-as-link"
+	case 2: // a directory of the chain again, as a symlink, right after the walk reached the end
+		q := chain[depth-1-r.Intn(min(3, depth))]
+		pk = append(pk, lstat(q))
+		class = "dup-chain-link"
+	case 3: // the end twice as a directory, then something below it
+		pk = append(pk, c03StatPk(dstat(k)), c03StatPk(dstat(k)), lstat(k+"/"+t.child))
+		class = "dup-dir"
+	default: // out of order at that depth
+		pk = append(pk, lstat(k+"z"), c03StatPk(dstat(k)), lstat(k))
+		class = "misorder"
+	}
+	pk = append(pk, L(N(0)), L(N(2)))
+	in := L(setup, S(c03DestAbs), L(pk...), Bool(r.Chance(20)), L(L(), L()))
+	return in, fmt.Sprintf("deep%d-%s", depth, class), true
+}
+
 const c03ListingName = ".fsutil-metadata" // receive.go metadataPath: the one name the epilogue of a metadata transfer touches
 
 // a callback of ReceiveOpt in the form (default (path ...)), see c03_recv.go
@@ -842,6 +970,10 @@ func c03Case(r *Rng) (Sx, string, bool) {
 		outsideHL = "oh"
 	}
 	src := c03Mutate(r, dest, 0)
+	shadowed := false
+	if r.Chance(22) {
+		shadowed = c03Shadow(r, &src, 0)
+	}
 	var srcFlat []c03Flat
 	c03Walk(src, "", &srcFlat)
 	var srcPaths []string
@@ -1013,6 +1145,9 @@ func c03Case(r *Rng) (Sx, string, bool) {
 	if len(fltSx.L) > 0 {
 		class = "flt-" + class
 	}
+	if shadowed {
+		class += "+shadow"
+	}
 	in := L(c03SetupOps(dest, outsideHL), S(Pick(r, c03DestStrings)), L(pk...), Bool(merge), L(mo.sx(), fltSx))
 	return in, class, outLinks >= 1 && len(pk) >= 3
 }
@@ -1079,6 +1214,9 @@ func genC03Streams(g *Gen) {
 	n := g.Vol(1500, 40000)
 	for i := 0; i < n; i++ {
 		in, class, nt := c03Case(g.Rng)
+		if g.Rng.Chance(5) {
+			in, class, nt = c03DeepCase(g.Rng)
+		}
 		out := g.Emit(0x0302, in, nt, "stream:"+class)
 		if len(out.L) > 0 && out.L[0].Kind == 'n' {
 			g.classes[fmt.Sprintf("receive-class-%d", out.L[0].Int())]++
